@@ -984,7 +984,11 @@ fn apply_binary_operation(
                             }
                         },
                         BinaryOp::Mod => {
-                            Ok(Value::Int(a % b))
+                            if *b == 0 {
+                                Err(new_int_overflow(a, b))
+                            } else {
+                                Ok(Value::Int(a.wrapping_rem(*b)))
+                            }
                         },
                         _ => {
                             panic!("unexpected operation");
